@@ -18,6 +18,13 @@ void *malloc(size_t size);
 #ifndef VERIF_BLOCK
 #define VERIF_BLOCK 128
 #endif
+// optional second size class: requests of at most VERIF_SMALL bytes get a block
+// of exactly VERIF_SMALL bytes (default: one class only). Request sizes are
+// almost always constants after constant propagation, so the choice is made
+// during symbolic execution; a symbolic size keeps both classes alive.
+#ifndef VERIF_SMALL
+#define VERIF_SMALL VERIF_BLOCK
+#endif
 
 struct Unit;
 extern struct Unit VoidUnit;
@@ -36,6 +43,8 @@ uint8_t *__rust_alloc(size_t size, size_t align)
     __KANI_assert(size > 0, "__rust_alloc must be called with a size greater than 0");
     __KANI_assert(__KANI_is_nonzero_power_of_two(align), "Alignment is power of two");
     __KANI_assert(size <= VERIF_BLOCK, "VERIF_BOUND allocation request exceeds VERIF_BLOCK");
+    if (VERIF_SMALL < VERIF_BLOCK && size <= VERIF_SMALL)
+        return malloc(VERIF_SMALL);
     return malloc(VERIF_BLOCK);
 }
 
@@ -44,6 +53,8 @@ uint8_t *__rust_alloc_zeroed(size_t size, size_t align)
     __KANI_assert(size > 0, "__rust_alloc_zeroed must be called with a size greater than 0");
     __KANI_assert(__KANI_is_nonzero_power_of_two(align), "Alignment is power of two");
     __KANI_assert(size <= VERIF_BLOCK, "VERIF_BOUND zeroed allocation request exceeds VERIF_BLOCK");
+    if (VERIF_SMALL < VERIF_BLOCK && size <= VERIF_SMALL)
+        return calloc(1, VERIF_SMALL);
     return calloc(1, VERIF_BLOCK);
 }
 
